@@ -53,6 +53,10 @@ func c17(w *core.World, r *core.Report) {
 	scope := cg.Reachable(func(e core.Edge) bool { return e.Kind == "ref" || e.Kind == "dynamic-sig" }, validate)
 	lw := w.Locks(nil)
 
+	// ---- LEAFREF-PATH-FRESH (shared with C04)
+	r.Rule("LEAFREF-PATH-FRESH", 1, "(shared with C04) objects that validation mutates in place are not shared between the validation goroutines: the parsed leafref path (resolved key predicates are written into it) is kept in no field of tree-wide or process-wide state.")
+	ruleLeafrefPathFresh(w, r, "LEAFREF-PATH-FRESH")
+
 	// ---- GUARDED-BY
 	r.Rule("GUARDED-BY", 40, "guarded-by table of the shared tree state (children map, leaf variants, leaf flags, memoised verdicts, store indexes, schema memo, collected verdicts): every read/write of a listed field in a function reachable from the concurrent validation (sharedEntryAttributes.Validate) happens with the listed mutex of the same object held (must-lockset within the function + locks held by all callers); objects under construction are exempt; frozen exceptions carry a reason. Decides: no unsynchronised access to this state in the concurrent phase as far as locksets can tell; it is not a race detector for anything outside the table.")
 	inScope := func(f *ssa.Function) bool { return scope[f] }
